@@ -70,7 +70,7 @@ class C34(Check):
                   "stub": ["socket module", "DNS table", "TLS (stub context also returned by ssl.create_default_context)", "WSGI apps"]}
     assumptions = ["relative Locations are path-absolute ('/path?query'); dot-segment / sibling-relative resolution is not generated",
                    "on an https -> http redirect either an error response or an exception out of the redirect step is accepted; opening the plaintext connection is not"]
-    required_probes = ["relative", "host-change", "port-change", "http-to-https", "https-to-https", "downgrade-refused", "chain>=3", "completed"]
+    required_probes = ["relative", "host-change", "port-change", "http-to-https", "https-to-https", "downgrade-refused", "chain>=3", "completed", "errored-final-after-redirects", "follow-up-exchange"]
     quick_runs = 5000
     thorough_runs = 250000
     shrink_fields = ["schedule"]
@@ -104,7 +104,14 @@ class C34(Check):
         for _ in range(s.randint(0, 30)):
             r = s.random()
             sched.append(["c"] if r < 0.4 else ["s", s.randint(0, 5)] if r < 0.8 else ["d"])
-        return {"hops": hops, "forms": forms, "statuses": [g.choice([301, 302, 303, 307]) for _ in range(n - 1)], "schedule": sched}
+        plan = {"hops": hops, "forms": forms, "statuses": [g.choice([301, 302, 303, 307]) for _ in range(n - 1)], "schedule": sched,
+                "final": "ok", "followup": g.random() < 0.5}
+        last = hops[-1]["server"]
+        if SERVERS[last]["scheme"] == "http" and all(h["server"] != last for h in hops[:-1]) and g.random() < 0.35:
+            # the last server answers the redirected request with something that does not parse (scripted raw peer instead of a Valet)
+            plan["final"] = g.choice(["HTTP/2.0 200 OK\r\nContent-Length: 0\r\n\r\n", "HTTP/1.1 abc OK\r\n\r\n", "HTTP/1.1 200 OK\r\nNoColonHere\r\n\r\n",
+                                      "HTTP/1.1 200 OK\r\nTransfer-Encoding: chunked\r\n\r\nzz\r\nhello\r\n0\r\n\r\n"])
+        return plan
 
     def execute(self, plan):
         from ioflo.aio.http import clienting, serving
@@ -152,7 +159,45 @@ class C34(Check):
         with http_world(cap=1 << 16, extra=[("ioflo.aio.tcp.clienting", "ssl", SslShim(ctx))]) as net:
             net.hosts.update({"a.sim": "127.0.0.1", "b.sim": "127.0.0.2"})
             valets = {}
+            raw_final = plan.get("final", "ok") != "ok"
+            rawk = hops[-1]["server"] if raw_final else None
+            rawsrv = {"conns": [], "answered": 0}
+            if raw_final:
+                out.probe("errored-final-after-redirects")
+                from substrate.net import SimSocket
+                lst = SimSocket(net, "peer")
+                lst.bind((SERVERS[rawk]["ip"], SERVERS[rawk]["port"]))
+                lst.listen(5)
+
+                class RawFinal(object):
+                    def serviceAll(self_inner):
+                        try:
+                            c, ca = lst.accept()
+                            rawsrv["conns"].append([c, bytearray()])
+                        except OSError:
+                            pass
+                        for ent in rawsrv["conns"]:
+                            c, buf = ent
+                            try:
+                                buf.extend(c.recv(4096))
+                            except OSError:
+                                pass
+                            while b"\r\n\r\n" in buf:
+                                head, _, rest = bytes(buf).partition(b"\r\n\r\n")
+                                del buf[:len(head) + 4]
+                                target = head.split(b"\r\n")[0].split(b" ")[1].decode("ascii")
+                                pth, _, qs = target.partition("?")
+                                from urllib.parse import unquote
+                                seen.setdefault(rawk, []).append((unquote(pth), parse_qsl(qs, keep_blank_values=True), "http"))
+                                if rawsrv["answered"] == 0:
+                                    c.send(plan["final"].encode("latin-1"))
+                                else:
+                                    c.send(b"HTTP/1.1 200 OK\r\nContent-Length: 5\r\n\r\nplain")
+                                rawsrv["answered"] += 1
+                valets[rawk] = RawFinal()
             for k in used:
+                if k == rawk:
+                    continue
                 sv = SERVERS[k]
                 kw = dict(store=Store(stamp=0.0), app=make_app(k), ha=(sv["ip"], sv["port"]), bufsize=4096, timeout=0.0)
                 if sv["scheme"] == "https":
@@ -199,6 +244,24 @@ class C34(Check):
                     if not step(st):
                         ok = False
                         break
+            followed = False
+            if ok and pat.responses and plan.get("followup") and downgrade_at is None:
+                # a second, unredirected exchange on the same Patron: it must not inherit anything from the first
+                followed = True
+                out.probe("follow-up-exchange")
+                try:
+                    pat.request(method="GET", path="/plain", qargs=odict())
+                except Exception as ex:
+                    import traceback
+                    exc[0] = ("c", ex, traceback.format_exc()[-800:])
+                    ok = False
+                rounds = 0
+                while ok and len(pat.responses) < 2 and rounds < (12 if raw_final else 80):
+                    rounds += 1
+                    for st in [["c"], ["d"]] + [["s", i] for i in range(len(used))] + [["d"]]:
+                        if not step(st):
+                            ok = False
+                            break
             tr.add("seen", sorted((k, v) for k, v in seen.items()), [r["status"] for r in pat.responses], repr(exc[0][1]) if exc[0] else None)
             # ---- judge -------------------------------------------------------------------
             plain_conns = [s for s in net.socks if s.role == "cli" and s.raddr is not None and s.state in ("established", "connected0", "pending")
@@ -228,14 +291,37 @@ class C34(Check):
                 want_seen = {}
                 for i, h in enumerate(hops):
                     want_seen.setdefault(h["server"], []).append((h["path"], [(k, v) for k, v in h["query"]], SERVERS[h["server"]]["scheme"]))
+                if followed and not raw_final:
+                    want_seen.setdefault(hops[-1]["server"], []).append(("/plain", [], SERVERS[hops[-1]["server"]]["scheme"]))
+                if raw_final:      # after an unparsable response the connection's byte stream is out of step: only the chain bookkeeping is judged
+                    seen = dict((k, [x for x in v if x[0] != "/plain"]) for k, v in seen.items())
                 if seen != want_seen:
                     out.violate("requests", "requests seen by servers differ from the chain", "seen %r want %r" % (seen, want_seen))
-                elif len(pat.responses) != 1:
-                    out.violate("final-count", "not exactly one final response", "%d responses" % len(pat.responses))
+                elif raw_final and followed and len(pat.responses) in (1, 2):
+                    r = pat.responses[0]
+                    if not r["errored"]:
+                        out.violate("final", "unparsable final response not marked errored", "status %r errored %r" % (r["status"], r["errored"]))
+                    elif [x["status"] for x in r.get("redirects", [])] != statuses:
+                        out.violate("redirects", "redirect chain not carried in order by an errored final response",
+                                    "redirect statuses %r want %r" % ([x["status"] for x in r.get("redirects", [])], statuses))
+                    elif len(pat.responses) == 2 and pat.responses[1].get("redirects"):
+                        out.violate("follow-up", "the exchange after a redirected one inherits its redirect chain",
+                                    "second response carries redirects %r" % ([x["status"] for x in pat.responses[1]["redirects"]],))
+                    else:
+                        out.probe("completed")
+                elif len(pat.responses) != (2 if followed else 1):
+                    out.violate("final-count", "not exactly one final response per exchange", "%d responses for %d exchanges" % (len(pat.responses), 2 if followed else 1))
                 else:
                     r = pat.responses[0]
                     reds = r.get("redirects", [])
-                    if r["status"] != 200 or bytes(r["body"]) != b"final:%d" % (n - 1):
+                    if followed and (pat.responses[1].get("redirects") or pat.responses[1]["status"] != 200 or
+                                     bytes(pat.responses[1]["body"]) != (b"plain" if raw_final else b"final:-1")):
+                        r2 = pat.responses[1]
+                        out.violate("follow-up", "the exchange after a redirected one is not clean",
+                                    "second response status %r body %r redirects %r" % (r2["status"], bytes(r2["body"]), [x["status"] for x in r2.get("redirects", [])]))
+                    elif raw_final and not r["errored"]:
+                        out.violate("final", "unparsable final response not marked errored", "status %r errored %r" % (r["status"], r["errored"]))
+                    elif not raw_final and (r["status"] != 200 or bytes(r["body"]) != b"final:%d" % (n - 1)):
                         out.violate("final", "final response wrong", "status %r body %r" % (r["status"], bytes(r["body"])))
                     elif [x["status"] for x in reds] != statuses:
                         out.violate("redirects", "redirect chain not carried in order", "redirect statuses %r want %r" % ([x["status"] for x in reds], statuses))
